@@ -4,7 +4,9 @@ open Wb
 /-! line protocol: `log <cap> <event> …`  (a receiver of the given capacity), or
     `cfg <major.minor> <max_receive_queue> log <event> …`  (a WebSocket constructed with that announced spec version and that
     configured queue: `Wm.wire` decides the path; the reply starts with `hdr=<supports_accept_headers>`, and is `direct` when the
-    configuration yields no buffered receiver). -/
+    configuration yields no buffered receiver), or
+    `hist <op>,<op>,… <major.minor> log <event> …`  (a WebSocket made by a `falcon.asgi.App` object with the given history of option changes `q<n>` and
+    earlier connections `c<major.minor>`, `-` = none: `Wm.serve` wires the connection from the options in force). -/
 def parseVer (t : String) : Option Wm.Ver :=
   match t.splitOn "." with
   | [a, b] => match a.toNat?, b.toNat? with
@@ -39,17 +41,31 @@ def runLog (cap : Nat) (toks : List String) : String :=
       s!"accepted q={s.q.length} held={(held s).length} ret={(returned evs).length} dlv={(delivered evs).length} disc={if s.disc then 1 else 0} pump={if s.pump == .exited then 0 else 1}"
     | .error e => "REJECTED " ++ e
   | none => "bad-op"
+/-- what the App object did before this connection: `q<n>` = `ws_options.max_receive_queue = n`, `c<major.minor>` = an earlier connection; `-` = nothing -/
+def parseOp (t : String) : Option Wm.AppOp :=
+  if t.startsWith "q" then (t.drop 1).toString.toNat?.map .setQueue
+  else if t.startsWith "c" then (parseVer (t.drop 1).toString).map .connect
+  else none
+def parseHist (t : String) : Option (List Wm.AppOp) :=
+  if t == "-" then some [] else (t.splitOn ",").mapM parseOp
+def wired (w : Wm.Wiring) (toks : List String) : String :=
+  s!"hdr={if w.acceptHeaders then 1 else 0} " ++
+    (match w.path with
+     | .buffered cap => runLog cap toks
+     | .direct => "direct")
 def step (line : String) : String :=
   match line.trimAscii.toString.splitOn " " with
   | "log" :: cap :: toks => runLog cap.toNat! toks
   | "cfg" :: ver :: mq :: "log" :: toks =>
     match parseVer ver, mq.toNat? with
-    | some v, some q =>
-      let w := Wm.wire v q
-      s!"hdr={if w.acceptHeaders then 1 else 0} " ++
-        (match w.path with
-         | .buffered cap => runLog cap toks
-         | .direct => "direct")
+    | some v, some q => wired (Wm.wire v q) toks
+    | _, _ => "bad-op"
+  | "hist" :: h :: ver :: "log" :: toks =>
+    match parseHist h, parseVer ver with
+    | some ops, some v =>
+      match (Wm.serve {} (ops ++ [.connect v])).getLast? with
+      | some w => wired w toks
+      | none => "bad-op"
     | _, _ => "bad-op"
   | _ => "bad-op"
 partial def loop (h : IO.FS.Stream) : IO Unit := do
